@@ -270,3 +270,36 @@ func (m *smap) iter(fr *frame) iter {
 	}
 	return &smapIter{ents: ents}
 }
+
+func (m *smap) shallowClone() *smap {
+	if m == nil {
+		return nil
+	}
+	c := &smap{keyType: m.keyType, cidx: map[string]*ment{}}
+	for _, e := range m.ents {
+		if e.dead {
+			continue
+		}
+		n := &ment{key: e.key, val: e.val, ck: e.ck}
+		c.ents = append(c.ents, n)
+		c.nlive++
+		if n.ck != "" {
+			c.cidx[n.ck] = n
+		} else {
+			c.nsym++
+		}
+	}
+	return c
+}
+
+func init() {
+	// maps.clone is linked to the runtime (shallow copy of a map)
+	externals["maps.clone"] = func(fr *frame, args []value) value {
+		x := args[0].(iface)
+		m, ok := x.v.(*smap)
+		if !ok {
+			panic(engineAbort{fmt.Sprintf("maps.clone of %T", x.v)})
+		}
+		return iface{t: x.t, v: m.shallowClone()}
+	}
+}
